@@ -46,6 +46,18 @@ GroupOK(e) ==
             /\ (e.res[j].hasavg /\ Len(NumCells(cs)) <= 15) =>
                   LET a == e.res[j].avq[Len(NumCells(cs))] IN a.ok /\ a.v = Sum2(NumCells(cs))
 
+\* PARTITION BY buckets rows like GROUP BY: every row sees the count and the sum of exactly the rows of its bucket,
+\* whatever other analytic functions (with their own ORDER BY) stand in the same select list
+PartitionOK(e) ==
+  Decided(e.keys) =>
+    \A i \in 1..Len(e.keys) :
+      LET mem == Members(e.keys, e.keys[i])
+          idx == SelectSeq([k \in 1..Len(e.keys) |-> k], LAMBDA k : k \in mem)
+          cs == [k \in 1..Len(idx) |-> e.vals[idx[k]]] IN
+      /\ e.res[i].cnt = Cardinality(mem)
+      /\ e.res[i].hassum = (NumCells(cs) # <<>>)
+      /\ e.res[i].hassum => e.res[i].sum2 = Sum2(NumCells(cs))
+
 \* analytic functions: for every row the logged value must equal the definition under SOME valid order of its
 \* partition; the harness logs the order csvq's ROW_NUMBER reveals (ord, per partition) and TLC checks it is valid
 RECURSIVE JoinText(_, _)
@@ -93,6 +105,7 @@ Accept(e) ==
     [] e.kind = "distinct" -> /\ BucketsOK(e.keys, e.res)
                               /\ Decided(e.keys) => TextRows(e.res) = TextRows(FirstOfBuckets(e.keys))
     [] e.kind = "group"    -> GroupOK(e)
+    [] e.kind = "partition" -> PartitionOK(e)
     [] e.kind = "setop"    -> Decided(e.A \o e.B) => TextRows(e.res) = TextRows(SetOpRows(e))
     [] e.kind = "analytic" -> AnalyticOK(e)
     \* the same source read by several queries of one statement (UNION ALL over a common table expression or
